@@ -16,7 +16,7 @@ from json_to_models.dynamic_typing import (DDict, DList, DOptional, DUnion, Null
                                            IsoTimeString, IsoDatetimeString)
 
 # ---- grounding of the MC string universe (checked against the real parsers on every run)
-MC_STRINGS = {"sA": "foo", "sB": "bar", "sLong": "abcdefghijklmnopqrst", "sInt": "1", "sFlt": "1.5",
+MC_STRINGS = {"sA": "a", "sB": "b", "sC": "a,b", "sLong": "abcdefghijklmnopqrst", "sInt": "1", "sFlt": "1.5",
               "sBool": "true", "sDate": "2020-01-02", "a": "a", "b": "b", "c": "c", "d": "d"}
 MC_ENVS = {
     "default": {},
@@ -25,6 +25,7 @@ MC_ENVS = {
     "dkf": {"dkf": ["a"]},
     "dkr": {"dkr": ["c"]},
     "dkfdkr": {"dkf": ["a"], "dkr": ["c"]},
+    "dkr2": {"dkr": ["c", "[cd]"]},
 }
 PSEUDO = {c.__name__: c for c in (IntString, FloatString, BooleanString, IsoDateString, IsoTimeString, IsoDatetimeString)}
 
@@ -188,7 +189,7 @@ def mc_infer(chk, max_samples, universe, emit=True, timeout=3000):
 # ---------------------------------------------------------------------- random nested JSON
 KEYS = ["id", "name", "value", "items", "data", "c", "d", "tags", "meta", "x1", "flag", "when"]
 STRS = ["foo", "bar", "baz", "1", "-2", "1.5", "1e3", "true", "False", "2020-01-02", "12:30", "2020-01-02T10:00:00",
-        "abcdefghijklmnopqrstuvwxyz", "", " ", "nan", "0x1", "1_0", "qux", "é"]
+        "abcdefghijklmnopqrstuvwxyz", "", " ", "nan", "0x1", "1_0", "qux", "é", "a", "b", "a,b", "...", ","]
 
 
 def random_json(rng, depth=0, maxdepth=3):
